@@ -4,10 +4,12 @@ set -e
 cd "$(dirname "$0")"
 export CARGO_NET_OFFLINE=true
 mkdir -p .cache evidence replays
+python3 -m vlib.genreg
 python3 -m vlib.extract
 (cd lean && lake build GoldModel driver)
-cp /repo/Cargo.lock harness/Cargo.lock
+cp "${VERIF_REPO:-/repo}/Cargo.lock" harness/Cargo.lock
+ln -sfn "${VERIF_REPO:-/repo}/src" harness/reposrc
 (cd harness && cargo build --release --offline)
-CARGO_TARGET_DIR=/verif/.cache/repo-target RUSTFLAGS="--cfg gold_lsp_verif -Awarnings" \
-  cargo build --release --offline --manifest-path /repo/Cargo.toml
+CARGO_TARGET_DIR="$PWD/.cache/repo-target" RUSTFLAGS="--cfg gold_lsp_verif -Awarnings" \
+  cargo build --release --offline --manifest-path "${VERIF_REPO:-/repo}/Cargo.toml"
 echo setup-ok
